@@ -34,7 +34,9 @@ Section Functions.
   Definition to_long (v : value) : outcome Z := bind (convert v TLong) as_long.
   Definition to_integer (v : value) : outcome Z := bind (convert v TInteger) as_integer.
   Definition nth_param (ps : list value) (i : Z) : outcome value :=
-    if i <? 0 then Panic else match nth_error ps (Z.to_nat i) with Some v => Ok v | None => Panic end.   (* index out of range *)
+    (* index out of range: Go panics (recovered by the caller); the bound is tested on Z so that an index like 2^63-1 is
+       never turned into a unary number *)
+    if (i <? 0) || (Z.of_nat (length ps) <=? i) then Panic else match nth_error ps (Z.to_nat i) with Some v => Ok v | None => Panic end.
 
   Fixpoint map_out {A B} (f : A -> outcome B) (l : list A) : outcome (list B) :=
     match l with [] => Ok [] | x :: r => bind (f x) (fun y => bind (map_out f r) (fun ys => Ok (y :: ys))) end.
